@@ -8,7 +8,7 @@ SPEC = {
                                     "C16_verdict_reflects_database_at_probe_instants", "C16_probe_instants",
                                     "C16_range_probe_is_unsliced_runs", "C16_disappeared_metric_is_reported", "C16_matcher_never_matches_is_reported",
                                     "C16_nonvacuous"]},
-    "harness_args": lambda tier: ["C16", "--n", 400 if tier == "quick" else 5000],
+    "harness_args": lambda tier: ["C16", "--n", 400 if tier == "quick" else 3000],
     "search_args": lambda tier: ["C16", "--n", 1200],
     "level": "proof",
     "trusted_base": [
